@@ -269,6 +269,7 @@ type tcase struct {
 	n               int
 	t0, t1          int64 // data time span
 	corpus          string
+	extra           []string // fixed additional range-vs-instant queries (corpus)
 	split           []int // per series: index where info{version} changes from "1" to "2" (-1: constant)
 }
 
@@ -569,7 +570,7 @@ func (g *qgen) infoJoin(depth int) string {
 		one = "last_over_time(info[" + dur(g.someRange()) + "]" + g.mods() + ")"
 	}
 	op := gen.Pick(r, []string{"*", "+", "-", "/", ">=", "== bool", "*", "*"})
-	incl := gen.Pick(r, []string{"(version)", "(version)", "(version)", "()", ""})
+	incl := gen.Pick(r, []string{"(version)", "(version)", "(version)", "()"}) // (a bare group_x would swallow the parenthesised operand)
 	on := " on (s) "
 	if r.Chance(1, 3) {
 		on = " ignoring (g, version) "
@@ -1117,13 +1118,15 @@ func main() {
 		km := keymap{}
 		var gterms []string
 		nontrivial := false
-		for gi := 0; gi < 5; gi++ {
+		for gi := -len(c.extra); gi < 5; gi++ {
 			hist := len(c.hser) > 0 && r.Chance(1, 4)
 			depth := 1 + r.Intn(3)
 			if gi < 4 {
 				g := &qgen{r: r, c: &c}
 				var expr string
 				switch {
+				case gi < 0:
+					expr = c.extra[-gi-1]
 				case gi == 3:
 					expr = regression(g, id)
 				case r.Chance(1, 8):
@@ -1332,6 +1335,15 @@ func regular(s, g string, t0, iv int64, vals ...float64) pseries {
 	return p
 }
 
+var infoQueries = []string{
+	"info * on (s) group_right (version) m",
+	"m * on (s) group_left (version) info",
+	"info + ignoring (g, version) group_right (version) sum by (s, g) (p)",
+	"p - ignoring (g, version) group_left (version) info",
+	"info * on (s) group_right () m",
+	"(info == 1) * on (s) group_right (version) rate(m[30000ms])",
+}
+
 func corpus() []tcase {
 	nan := math.NaN()
 	var l []tcase
@@ -1349,9 +1361,9 @@ func corpus() []tcase {
 		start: 610000, step: 5000, n: 12, t0: 600000, t1: 650000, corpus: "lookback-edge"})
 	// the copied label of a group_left/group_right join changes in the middle of the range
 	l = append(l, tcase{lookback: 20000, iv: 10000, ser: []pseries{regular("a", "x", 600000, 10000, 1, 2, 3, 4, 5, 6, 7, 8), regular("b", "y", 600000, 10000, 9, 8, 7, 6, 5, 4, 3, 2)},
-		split: []int{4, 2}, start: 600000, step: 10000, n: 8, t0: 600000, t1: 670000, corpus: "info-change"})
+		split: []int{4, 2}, start: 600000, step: 10000, n: 8, t0: 600000, t1: 670000, corpus: "info-change", extra: infoQueries})
 	l = append(l, tcase{lookback: 60000, iv: 15000, ser: []pseries{regular("a", "x", 600000, 15000, 1, 2, 3, 4, 5, 6)},
-		split: []int{3}, start: 607000, step: 7000, n: 10, t0: 600000, t1: 675000, corpus: "info-change-irregular-steps"})
+		split: []int{3}, start: 607000, step: 7000, n: 10, t0: 600000, t1: 675000, corpus: "info-change-irregular-steps", extra: infoQueries})
 	// single step
 	l = append(l, tcase{lookback: 300000, iv: 5000, ser: []pseries{regular("a", "x", 600000, 5000, 3, 1, 4, 1, 5)},
 		start: 612345, step: 1000, n: 1, t0: 600000, t1: 620000, corpus: "single-step"})
